@@ -69,10 +69,10 @@ fn strat(topos: Vec<Topology>, max_prefix: usize, max_burst: usize, max_steps: u
 			2 => (253u32..2_000, 2_000u32..40_000, 0u8..30, 1u8..12).prop_map(|(base, peak, at, len)| Traj::Spike { base, peak, at, len }),
 		],
 		// one case in six is a race at the expiry boundary with generated parameters: several same-expiry HTLCs in
-		// one direction, the recipient's commitment confirms, the recipient learns some preimages shortly before
-		// the expiry and its claims wait in the mempool, the sender's (aggregated) timeout claim appears at the
-		// expiry, then the waiting claims confirm together
-		(proptest::bool::weighted(0.17), any::<bool>(), 3usize..7, 1usize..4, -3i8..0, 0i8..2, 30u8..60, proptest::collection::vec(any::<u16>(), 4)),
+		// one direction, the recipient's commitment confirms, the recipient learns some preimages right away but
+		// its claims wait in the mempool (confirmation bound beyond the expiry), the sender's (aggregated) timeout
+		// claim appears at the expiry, then the waiting claims confirm together
+		(proptest::bool::weighted(0.17), any::<bool>(), 3usize..7, 1usize..4, -3i8..0, 0i8..2, 80u8..120, proptest::collection::vec(any::<u16>(), 4)),
 	)
 		.prop_map(|(mut spec, styles, prefix, burst, settle, chan, close, steps, max_delay, tail_reverse, traj, (race, dir, n_sends, n_claims, before, at, race_delay, picks))| {
 			spec.deferred = false;
@@ -83,7 +83,8 @@ fn strat(topos: Vec<Topology>, max_prefix: usize, max_burst: usize, max_steps: u
 				ops.push(Op::Pump);
 				ops.push(Op::Pump);
 				let mut rsteps = vec![
-					Step { advance: Some(before), pre: picks.iter().take(n_claims.min(n_sends - 1)).map(|p| Pre::Claim { pay: *p }).collect(), incl: Incl::Overdue, pump: false },
+					Step { advance: None, pre: picks.iter().take(n_claims.min(n_sends - 1)).map(|p| Pre::Claim { pay: *p }).collect(), incl: Incl::Overdue, pump: false },
+					Step { advance: Some(before), pre: vec![], incl: Incl::Overdue, pump: false },
 					Step { advance: Some(at), pre: vec![], incl: Incl::Overdue, pump: false },
 					Step { advance: None, pre: vec![], incl: Incl::All, pump: true },
 				];
